@@ -1,4 +1,91 @@
-From Coq Require Import ZArith List Bool String.
-From PAFC10 Require Import Model Proofs.
-Theorem C10_placeholder : forall n b, iter_negb (S n) b = negb (iter_negb n b).
-Proof. exact iter_negb_S. Qed.
+(* C10 property theorems: statements only, each closed by `exact`.
+   `current` is the code as it is, `repaired` the code after proposed_fixes/C10-*.diff. *)
+From Coq Require Import ZArith List Bool String Permutation Sorted.
+From PAFC10 Require Import Model Proofs Proofs2 Proofs3 Proofs4 Witness.
+Import ListNotations.
+
+(* FULL STATEMENT (all predicates, all well-formed databases): the compiled query holds of a
+   fit exactly when the predicate is true on the stored objects -- REFUTED for the current code *)
+Theorem C10_exact_refuted :
+  exists p q f, compile current p = Ok q /\ wf_pred p = true /\ wf_fit f = true /\ sem q f <> eval p f.
+Proof. exact exact_refuted. Qed.
+
+(* ... and proved for every predicate tree and every database with unique child names under the
+   explicit guard `safe` (no inverted NamedQuery in a name merge, Or-merges over equal tables,
+   no negated info test) *)
+Theorem C10_exact_partial : forall p q f,
+  compile current p = Ok q -> safe current p = true -> wf_fit f = true -> sem q f = eval p f.
+Proof. exact (compile_exact current true (or_introl eq_refl)). Qed.
+
+(* result lists: exactly the satisfying fits, in database order, each once *)
+Theorem C10_select_partial : forall p q db,
+  compile current p = Ok q -> safe current p = true -> forallb wf_fit db = true ->
+  select q db = filter (eval p) db.
+Proof. exact (select_exact current true (or_introl eq_refl)). Qed.
+
+Theorem C10_each_once : forall q db, NoDup (map fid db) -> NoDup (map fid (select q db)).
+Proof. exact select_nodup. Qed.
+
+(* after the repair of _match_conditions the guard no longer mentions inverted queries *)
+Theorem C10_exact_repaired_partial : forall p q f,
+  compile repaired p = Ok q -> safe_with repaired false true true p = true -> wf_fit f = true ->
+  sem q f = eval p f.
+Proof. exact (compile_exact repaired false (or_intror eq_refl)). Qed.
+
+Theorem C10_exact_repaired_refuted :
+  exists p q f, compile repaired p = Ok q /\ wf_pred p = true /\ wf_fit f = true /\ sem q f <> eval p f.
+Proof. exact exact_repaired_still_refuted. Qed.
+
+(* the junction constructor itself (flatten, group by name, de-duplicate, collapse singletons)
+   preserves meaning at every well-formed object, for every list of conditions *)
+Theorem C10_junction_partial : forall f vr ci,
+  (ci = true \/ fix_inverted_merge vr = true) ->
+  forall fuel k conds q,
+    mk_junction vr fuel k conds = Ok q -> merge_ok vr ci true fuel k conds = true ->
+    forall o, wf_obj o = true -> holds f q o = jsem k (fun m => holds f m o) conds.
+Proof. exact mk_junction_sem. Qed.
+
+(* FULL STATEMENT: every well-formed predicate compiles -- REFUTED (~ of a junction, three tables) *)
+Theorem C10_total_refuted :
+  (exists p, wf_pred p = true /\ compile current p = Err ETypeError) /\
+  (exists p, wf_pred p = true /\ compile current p = Err EAssertion).
+Proof. exact total_refuted. Qed.
+
+Theorem C10_total_partial : forall vr p,
+  wf_pred p = true -> junction_free p = true -> exists q, compile vr p = Ok q /\ invertible q.
+Proof. exact compile_junction_free. Qed.
+
+(* the model's errors are the code's exceptions: fuel never runs out *)
+Theorem C10_no_fuel : forall vr p, compile vr p <> Err EFuel.
+Proof. exact compile_no_fuel. Qed.
+
+(* ordering: a permutation of the selection, adjacent fits in key order (first key first) *)
+Theorem C10_order : forall keys l,
+  Permutation l (ordered keys l) /\
+  (keys <> [] -> Sorted (fun a b => lex_le keys a b = true) (ordered keys l)).
+Proof. exact ordered_spec. Qed.
+
+(* FULL STATEMENT: aggregator[s1][s2]... equals Python slicing of the fits -- REFUTED *)
+Theorem C10_slice_refuted :
+  exists L sl, run_slices current false L [sl] <> spec_slices false L [sl].
+Proof. exact slice_refuted. Qed.
+
+Theorem C10_slice_children_refuted :
+  exists L sl, open_slice sl /\ run_slices current true L [sl] <> spec_slices true L [sl].
+Proof. exact slice_children_refuted'. Qed.
+
+(* ... proved for chains of [start:] slices with start >= 0 when child fits are not filtered *)
+Theorem C10_slice_partial : forall (L : list fit) slices,
+  Forall open_slice slices -> run_slices current false L slices = spec_slices false L slices.
+Proof. exact slices_current_open. Qed.
+
+(* ... and proved in full for the repaired __getitem__ / _fits_for_query *)
+Theorem C10_slice_repaired : forall top_only L slices,
+  run_slices repaired top_only L slices = spec_slices top_only L slices.
+Proof. exact slices_repaired. Qed.
+
+Print Assumptions C10_exact_partial.
+Print Assumptions C10_exact_refuted.
+Print Assumptions C10_junction_partial.
+Print Assumptions C10_slice_repaired.
+Print Assumptions C10_order.
